@@ -218,8 +218,11 @@ def execute(sc):
     iso_checked = 0
     if violation is None and not generator_defect:
         n_all = sum(w["n_mol"])
-        j = n_all - 1
-        for i, op in enumerate(sc["ops"]):
+        pairs = [(i, j) for i in range(len(sc["ops"])) for j in sorted({n_all - 1, n_all // 2})]
+        for i, j in pairs:
+            op = sc["ops"][i]
+            if violation is not None:
+                break
             if op["op"] not in ISOLATABLE or ref[i][0] != "ok":
                 continue
             row = _row_of(op["op"], ref[i][1], j)
@@ -357,6 +360,7 @@ def execute(sc):
         "notes": notes,
         "generator_defect": generator_defect,
         "stats": dict(st, sites=len(sim.sites), f8_delivered=delivered_f8, twin_ops=twin_checked, iso_ops=iso_checked,
+                      storage_reads=sum(s_.reads for s_ in (sim_world.stores if sim_world is not None else []) if s_ is not None),
                       steps=sim.steps, ref_tasks=ref_sim.stats["tasks"],
                       padded=int(bool(w["edge"])), n_ops=len(sc["ops"])),
         "digests": dict(sim.digests(), result=digest([d for d in ref_digests])),
